@@ -18,6 +18,7 @@ import (
 	"fmt"
 	"io"
 	"log/slog"
+	"math"
 	"sort"
 	"strings"
 	"time"
@@ -175,11 +176,61 @@ func (w *world) genAttr(depth int) slog.Attr {
 		simrt.Probe("long_key_path")
 		key += "_" + strings.Repeat("y", 20+ch("attr.longkey.n", 30))
 	}
-	n := 15
+	n := 23
 	if depth >= 2 {
 		n = 11
 	}
-	switch ch("attr.kind", n) {
+	switch k := ch("attr.kind", n); k {
+	case 15:
+		simrt.Probe("exotic_value")
+		return slog.Any(key, nil)
+	case 16:
+		simrt.Probe("exotic_value")
+		return slog.Any(key, jsonOK{w.uniq})
+	case 17:
+		simrt.Probe("exotic_value")
+		return slog.Any(key, jsonFail{})
+	case 18:
+		simrt.Probe("exotic_value")
+		return slog.Any(key, textOK{w.token("t")})
+	case 19:
+		simrt.Probe("exotic_value")
+		return slog.Any(key, textFail{})
+	case 20:
+		simrt.Probe("exotic_value")
+		return slog.Float64(key, []float64{math.NaN(), math.Inf(1), math.Copysign(0, -1)}[ch("attr.float", 3)])
+	case 21:
+		simrt.Probe("exotic_value")
+		return slog.String(key, "")
+	case 22:
+		simrt.Probe("exotic_value")
+		return slog.String("", "emptykey-"+w.token("e"))
+	default:
+		return w.genCommonAttr(k, key, depth)
+	}
+}
+
+type jsonOK struct{ n int }
+
+func (j jsonOK) MarshalJSON() ([]byte, error) {
+	return []byte(fmt.Sprintf(`{"n":%d,"s":"a b"}`, j.n)), nil
+}
+
+type jsonFail struct{}
+
+func (jsonFail) MarshalJSON() ([]byte, error) { return nil, errors.New("marshal \"failed\"\n badly") }
+
+type textOK struct{ s string }
+
+func (t textOK) MarshalText() ([]byte, error) { return []byte("text " + t.s + "=1"), nil }
+
+type textFail struct{}
+
+func (textFail) MarshalText() ([]byte, error) { return nil, errors.New("text marshal failed") }
+
+func (w *world) genCommonAttr(k int, key string, depth int) slog.Attr {
+	ch := simrt.Choose
+	switch k {
 	case 0:
 		return slog.String(key, w.token("v"))
 	case 1:
